@@ -63,6 +63,35 @@ def thread_local_guards(ctx: Ctx) -> List[Guard]:
   return out
 
 
+def relocated_global(ctx: Ctx, q: str, depth: int = 3) -> str:
+  """Where the module-level object `q` lives now: if its old module only
+  keeps an alias (`name = other_module.name`), the qualified name of the
+  object the alias refers to."""
+  p = ctx.p
+  while depth > 0:
+    mq, _, name = q.rpartition('.')
+    mod = p.modules.get(mq)
+    if mod is None:
+      return q
+    v = mod.assigns.get(name)
+    if v is None:
+      # imported under the same name: `from other_module import name`
+      tgt = mod.imports.get(name)
+      if tgt and tgt.rpartition('.')[0] in p.modules:
+        q = tgt
+        depth -= 1
+        continue
+      return q
+    if not isinstance(v, (ast.Name, ast.Attribute)):
+      return q
+    r = p.resolve(v, mod)
+    if not r or r == q or r.rpartition('.')[0] not in p.modules:
+      return q
+    q = r
+    depth -= 1
+  return q
+
+
 def _is_guard_ref(ctx: Ctx, expr, f, guard: Guard) -> bool:
   if guard.kind == 'tls-attr':
     return (isinstance(expr, ast.Attribute) and expr.attr == guard.attr and
